@@ -84,8 +84,13 @@ fn run(req: &str) -> Option<String> {
     };
     // a trailing `r`: the WINDOW blocks are written in the WHERE clause in the reverse of their declaration order (and
     // the static pattern first), which must not matter
-    let reversed = toks[2].ends_with('r');
-    let policy = match toks[2].trim_end_matches('r') {
+    // a trailing `n`: the streams are named by full IRIs that share their last segment (<http://plant0.example/obs>,
+    // <http://plant1.example/obs>) instead of :s0 / :s1
+    let reversed = toks[2].contains('r');
+    let namespaced = toks[2].contains('n');
+    let sname = |k: u32| if namespaced { format!("<http://plant{}.example/obs>", k) } else { format!(":s{}", k) };
+    let spush = |k: u32| if namespaced { format!("http://plant{}.example/obs", k) } else { format!("s{}", k) };
+    let policy = match toks[2].trim_end_matches(|c| c == 'r' || c == 'n') {
         "W" => SyncPolicy::Wait,
         "X" => SyncPolicy::Steal,
         "TS" => SyncPolicy::Timeout { duration: Duration::from_millis(3), fallback: Fallback::Steal },
@@ -109,7 +114,7 @@ fn run(req: &str) -> Option<String> {
     let r2r = Box::new(SimpleR2R::with_execution_mode(QueryExecutionMode::Volcano));
     let mut text = String::from("REGISTER RSTREAM <http://out/stream> AS\nSELECT *\n");
     for (i, w) in wins.iter().enumerate() {
-        text.push_str(&format!("FROM NAMED WINDOW :w{} ON :s{} [RANGE {} STEP {}]\n", i, w.stream, w.width, w.slide));
+        text.push_str(&format!("FROM NAMED WINDOW :w{} ON {} [RANGE {} STEP {}]\n", i, sname(w.stream), w.width, w.slide));
     }
     text.push_str("WHERE {\n");
     if reversed && !static_pats.is_empty() {
@@ -153,7 +158,7 @@ fn run(req: &str) -> Option<String> {
             Ev::Add(ts, stream, s, p, o) => {
                 jit(&jitter);
                 for t in engine.parse_data(&nt_line(*s, *p, *o)) {
-                    engine.add_to_stream(&format!("s{}", stream), t, *ts);
+                    engine.add_to_stream(&spush(*stream), t, *ts);
                 }
                 for (i, w) in wins.iter().enumerate() {
                     if w.stream == *stream {
@@ -241,6 +246,12 @@ impl C11 {
             format!("{}r", policy)
         } else {
             policy.to_string()
+        };
+        let policy = if rng.chance(1, 4) {
+            stats.hit("streams_named_by_full_iris_sharing_the_last_segment");
+            format!("{}n", policy)
+        } else {
+            policy
         };
         let shared_vocab = rng.chance(1, 2);
         stats.hit(if shared_vocab { "vocab_shared" } else { "vocab_disjoint" });
